@@ -117,6 +117,14 @@ def _mk(r, i, tier):
         else:
             degen = "constant"
             colsv[tgt] = [r.randint(-4, 6)] * n
+    if degen == "none" and k >= 2 and i % 5 == 1:
+        # sensitive columns on very different scales (an income next to a 0/1 flag): powers of two keep every
+        # entry exactly representable; the small-scale direction must still be projected out
+        degen = "scales"
+        colsv[sens[0]] = [v * 1024 for v in colsv[sens[0]]]
+        colsv[sens[-1]] = [v % 2 for v in colsv[sens[-1]]]
+        if len(set(colsv[sens[-1]])) == 1:
+            colsv[sens[-1]][0] = 1 - colsv[sens[-1]][0]
     container = r.choice(["ndarray", "DataFrame", "DataFrame", "DataFrameInt"])
     if container == "ndarray":
         labels = list(range(m))
